@@ -67,7 +67,7 @@ def run_case(desc):
     # data evolutions: raw SQL leaving one marker row per execution, alone
     # (when the step has no schema edit for the app) or next to schema
     # mutations.  Their executions are counted in the database itself.
-    if rng.random() < 0.35:
+    if rng.random() < 0.6:
         # tail: an app loses all its models (DeleteModel evolutions) and in
         # the next version gains a brand-new model together with a data
         # evolution - its stored signature entry is empty in between
@@ -311,6 +311,20 @@ def run_case(desc):
         cap = {a: n for a in apps}
         if late_fault:
             cap[rng.choice(apps)] = n - 1
+        # an app that loses all its models and regains one later (tail):
+        # the random steps stay below the emptied version, then one run
+        # goes to the emptied version and another one beyond it
+        tail = None
+        for a in apps:
+            t1 = [v for v in range(1, n + 1) if not h.app_models(a, v) and
+                  h.app_models(a, v - 1)]
+            if t1:
+                t2 = [v for v in range(t1[0] + 1, n + 1)
+                      if h.app_models(a, v)]
+                if t2 and ver[a] < t1[0] and h.app_models(a, ver[a]):
+                    tail = (a, t1[0], t2[0])
+                    cap[a] = min(cap[a], t1[0] - 1)
+                    break
         for _ in range(steps):
             choices = ['noop']
             if any(ver[a] < cap[a] for a in apps):
@@ -397,6 +411,14 @@ def run_case(desc):
                         items.append({'type': 'WIPE_MARK_COUNT',
                                       'label': [a, l],
                                       'count': rows.count((a, l))})
+        if tail:
+            a, t1, t2 = tail
+            stats['tail_schedules'] = 1
+            ver[a] = t1
+            do_run('upgrade_to_emptied')
+            ver[a] = rng.randint(t2, n)
+            cap[a] = n
+            do_run('upgrade_to_regained')
         # ---- last step (sometimes): a run whose *last* task fails.  The
         # stale app is purged in the same run as pending evolutions and the
         # DROP of its table fails: nothing of that run may be recorded.
